@@ -17,6 +17,8 @@ pub enum Fail {
     HandlerPanic,
     StartErr,
     StoppedPanic,
+    /// a client asks for a restart; the start of the new incarnation fails
+    StartErrOnRestart,
 }
 
 pub struct X {
@@ -186,9 +188,14 @@ fn make_case(script: (&'static str, Vec<Op>), subs: &[Vec<L>], stopper: bool, fa
         Fail::HandlerPanic => role.work.push((msg_id(1, 0), Work { panic: true, ..Work::default() })),
         Fail::StartErr => role.started.push(StartBeh::Err),
         Fail::StoppedPanic => role.stopped_panic = true,
+        Fail::StartErrOnRestart => {
+            role.started = vec![StartBeh::Ok, StartBeh::Err];
+            clients.push(ClientSpec { init: vec![HInit::Addr], ops: vec![Op::Restart(H::Addr(0))] });
+        }
     }
     let desc = format!(
-        "owning mailbox={} script={} stopper={} fail={:?} subs={}",
+        "owning{} mailbox={} script={} stopper={} fail={:?} subs={}",
+        crate::progscene::variant_tag(),
         mailbox.name(),
         script.0,
         stopper,
@@ -199,7 +206,7 @@ fn make_case(script: (&'static str, Vec<Op>), subs: &[Vec<L>], stopper: bool, fa
         desc,
         exec: ExecCfg::default(),
         bound: None,
-        scene: Box::new(ProgScene { attach: crate::progscene::Attach::None, spawn: SpawnCfg::plain(mailbox), roles: vec![role], clients, extra: X { owner_script: script.0 }, oracle }),
+        scene: Box::new(ProgScene { attach: crate::progscene::attach_for(mailbox), spawn: SpawnCfg::plain(mailbox), roles: vec![role], clients, extra: X { owner_script: script.0 }, oracle }),
     }
 }
 
@@ -208,16 +215,16 @@ fn self_terminating(name: &str) -> bool {
     matches!(name, "consume" | "consume_sync" | "use-then-consume" | "detach-call" | "to_addr-drop-call" | "late-consume" | "late-consume_sync")
 }
 
-fn cases(tier: Tier) -> Vec<Case> {
+fn plain_cases(tier: Tier) -> Vec<Case> {
     let mut v = vec![];
     let alpha = [L::SendAddr, L::CallAddr, L::CallCal];
     let mbs: &[Mailbox] = if tier == Tier::Quick { &[Mailbox::U, Mailbox::B(1)] } else { &[Mailbox::U, Mailbox::B(0), Mailbox::B(1)] };
     for &mb in mbs {
         for script in owner_scripts() {
-            for fail in [Fail::No, Fail::HandlerPanic, Fail::StartErr, Fail::StoppedPanic] {
+            for fail in [Fail::No, Fail::HandlerPanic, Fail::StartErr, Fail::StoppedPanic, Fail::StartErrOnRestart] {
                 for stopper in [false, true] {
                     // the scene must terminate: a pure join needs a stop or a failure
-                    let terminates = stopper || self_terminating(script.0) || matches!(fail, Fail::HandlerPanic | Fail::StartErr);
+                    let terminates = stopper || self_terminating(script.0) || matches!(fail, Fail::HandlerPanic | Fail::StartErr | Fail::StartErrOnRestart);
                     if !terminates {
                         continue;
                     }
@@ -242,6 +249,21 @@ fn cases(tier: Tier) -> Vec<Case> {
             }
         }
     }
+    v
+}
+
+/// The family on the plain event loop, plus (every third case in the quick tier, all of them in
+/// the thorough tier) the same programs on the stream loop: the actor is attached to a stream
+/// that stays open and never yields, so `create_loop_on_stream` serves the mailbox.
+fn cases(tier: Tier) -> Vec<Case> {
+    let mut v = plain_cases(tier);
+    let s = crate::progscene::with_stream_variant(|| plain_cases(tier));
+    v.extend(s.into_iter().enumerate().filter(|(i, c)| (tier == Tier::Thorough || i % 3 == 0)).map(|(_, mut c)| {
+        // the attached stream is never ready, so the loop's select! tie-break cannot change anything:
+        // it is not explored as a choice here (C13 explores it, with streams that do yield)
+        c.exec.select_choice = false;
+        c
+    }));
     v
 }
 
